@@ -129,6 +129,8 @@ inductive Resort where
   | int64
   /-- no sort at all -/
   | none
+  /-- no `Add` either: both beacons of the pair are `Reset()`, the next read rebuilds them -/
+  | invalidate
   deriving DecidableEq, Repr
 
 structure Cfg where
@@ -311,12 +313,22 @@ def incrSort (cfg : Cfg) (ps : Slot) : Option Slot :=
     | .own => some ps
     | .int64 => some (.value .i64)
     | .none => none
+    | .invalidate => none
   match ps with
   | .key => pick cfg.resortKey
   | .created => pick cfg.resortCreated
   | .updated => pick cfg.resortUpdated
   | .expire => pick cfg.resortExpire
   | .value _ => pick cfg.resortValue
+
+/-- does an incremental add drop the pair instead of extending it? -/
+def invalidates (cfg : Cfg) (ps : Slot) : Bool :=
+  match ps with
+  | .key => cfg.resortKey == .invalidate
+  | .created => cfg.resortCreated == .invalidate
+  | .updated => cfg.resortUpdated == .invalidate
+  | .expire => cfg.resortExpire == .invalidate
+  | .value _ => cfg.resortValue == .invalidate
 
 /-- is comparator `s` a strict weak order on `l`?  (typed value comparators are not as soon as a
     record of another type is present together with at least one more record) -/
@@ -338,6 +350,7 @@ def sameAttr (ps : Slot) (a b : Rec) : Bool :=
 def Pair.insert (cfg : Cfg) (ps : Slot) (r : Rec) (p : Pair) : Pair :=
   if !p.init then p else
   if !addGuard cfg ps r then p else
+  if invalidates cfg ps then {} else
   let a := addTo p.asc r
   let d := addTo p.desc r
   match incrSort cfg ps with
